@@ -12,7 +12,8 @@ Inductive nnode :=
 | NT (name : str) (attrs : list (str * str)) (kids : list nnode)
 | NS (cls : N) (text : str).
 
-(* whitespace-only runs normalise (outside whitespace-preserving elements): endData's rule *)
+(* whitespace-only runs of TEXT normalise (outside whitespace-preserving elements): endData's rule; the content of a
+   comment, CDATA section, processing instruction, declaration or doctype is kept as it is *)
 Definition collapse (cfg : bconfig) (pres : bool) (s : str) : str :=
   if negb pres && all_in (c_spaces cfg) s then (if memN 10 s then [10] else [32]) else s.
 
@@ -54,7 +55,7 @@ Fixpoint norm_node (enc : bool) (f : fmt) (cfg : bconfig) (pres : bool) (cont : 
                  if output_kind c =? 0 then go (pend ++ s) r
                  else match read_special c s with
                       | Some (c', s') =>
-                          flush_text cfg pres' cont' pend ++ NS c' (collapse cfg pres' s') ::
+                          flush_text cfg pres' cont' pend ++ NS c' s' ::
                           go (trailing c) r
                       | None => go (pend ++ trailing c) r
                       end
@@ -69,7 +70,7 @@ Fixpoint norm_kids (enc : bool) (f : fmt) (cfg : bconfig) (pres : bool) (cont : 
       if output_kind c =? 0 then norm_kids enc f cfg pres cont (pend ++ s) r
       else match read_special c s with
            | Some (c', s') =>
-               flush_text cfg pres cont pend ++ NS c' (collapse cfg pres s') ::
+               flush_text cfg pres cont pend ++ NS c' s' ::
                norm_kids enc f cfg pres cont (trailing c) r
            | None => norm_kids enc f cfg pres cont (pend ++ trailing c) r
            end
